@@ -18,6 +18,7 @@
 #include "EbDecNbr.h"
 #include "EbUtility.h"
 #include "EbDecCdef.h"
+#include "EbVerifHooks.h"
 
 /*Compute's whether 8x8 block is skip or not skip block*/
 static INLINE int32_t dec_is_8x8_block_skip(BlockModeInfo *mbmi) {
@@ -526,6 +527,7 @@ void svt_cdef_sb_row_mt(EbDecHandle *dec_handle, int32_t *mi_wide_l2, int32_t *m
                 ;
             //Sleep(5); /* ToDo : Change */
         }
+        SVT_VERIF_EV("decsb", dec_handle, "SbBeg", 2, sb_fbr, sb_fbc, sb_fbr != 0, pic_width_in_sb - 1, 0);
         /*Curr multi thread implementation of cdef goes through every SB SIZE row*/
         /*If SB SIZE is 128x128, as cdef excepts top right sync,
         to process Bottom Right 64x64 block in (n) th SB BLOCK 128x128,
@@ -582,6 +584,7 @@ void svt_cdef_sb_row_mt(EbDecHandle *dec_handle, int32_t *mi_wide_l2, int32_t *m
                 dec_mt_frame_data->cdef_linebuf[AOMMIN(fbr_64 + 1, nvfb - 1)], /*current*/
                 dec_mt_frame_data->cdef_linebuf_stride);
         }
+        SVT_VERIF_EV("decsb", dec_handle, "SbEnd", 2, sb_fbr, sb_fbc);
         /* Update Top-Right Sync*/
         *cdef_completed_in_row = sb_fbc;
     }
